@@ -44,6 +44,16 @@ def gen_search(req):
         progs.append({"id": f"t{len(progs)}", "src": t["src"]})
         meta.append({"kind": "template", "template": t["name"], "desc": ""})
     n_templates = len(templates.TEMPLATES)
+    # the deterministic boundary grid (same for every seed)
+    import warnings
+
+    import boundary
+    with warnings.catch_warnings():
+        warnings.simplefilter("ignore")
+        grid = boundary.programs()
+    for g in grid:
+        progs.append({"id": f"g{len(progs)}", "src": g["src"]})
+        meta.append({"kind": "boundary_grid", "template": g["name"], "desc": g["name"]})
     per = max(1, req["n"] // n_templates)
     seen = {p["src"] for p in progs}
     for t in templates.TEMPLATES:
@@ -53,7 +63,7 @@ def gen_search(req):
             seen.add(m["src"])
             progs.append({"id": f"m{len(progs)}", "src": m["src"]})
             meta.append({"kind": m["kind"], "template": t["name"], "desc": m["desc"]})
-    return {"progs": progs, "meta": meta, "n_corpus": n_corpus, "n_templates": n_templates}
+    return {"progs": progs, "meta": meta, "n_corpus": n_corpus, "n_templates": n_templates, "n_grid": len(grid)}
 
 
 if __name__ == "__main__":
